@@ -1524,7 +1524,7 @@ Proof.
 Qed.
 
 (* the generating moves of OrderEquiv are accepted (statement of Props/C18.v) *)
-Lemma ee_io_complete_partial_lemma : forall (F : Type) (feq : F -> F -> bool) (simple : lineT F -> bool)
+Lemma ee_io_accepts_generators_lemma : forall (F : Type) (feq : F -> F -> bool) (simple : lineT F -> bool)
     (ok : F -> bool),
   (forall a, ok a = true -> feq a a = true) ->
   let ee_io := geom_eq feq (xy_exact feq) simple true in
